@@ -464,8 +464,10 @@ class Run:
             ev["coverage"]["known_findings_hit"] = self.known_hits
         if self.drift:
             ev["coverage"]["model_drift_cases"] = self.drift
-        os.makedirs(os.path.join(OUT, "evidence"), exist_ok=True)
-        with open(os.path.join(OUT, "evidence", self.pid + ".json"), "w") as f:
+        # extras (X..: coverage beyond the listed properties) keep their evidence apart from the per-property files
+        evdir = os.path.join(OUT, "evidence", "extra") if self.pid.startswith("X") else os.path.join(OUT, "evidence")
+        os.makedirs(evdir, exist_ok=True)
+        with open(os.path.join(evdir, self.pid + ".json"), "w") as f:
             json.dump(ev, f, indent=1)
         for k in self._known:
             if k["id"] in self.known_hits:
